@@ -9,6 +9,12 @@ Abstract score (JSON):
        | ['harmony', root, kind, [deg, ...], bass, offset]     root, bass = None | [step, alter | None]
                       kind = index into CHORD_KIND_ABBREVIATIONS (dict order), -1 absent, -2 unknown text
                       deg = [value, alter | None, type]  (type 0 add, 1 subtract, 2 alter, 3 invalid text)   offset = None | int
+Optional keys (serialisation choices and rare legal shapes, drawn independently by the generator):
+  score['fmt'] = {'alter0': emit <alter>0</alter>, 'alter_dec': alters as "1.0", 'omit_voice1': no <voice> for voice 1,
+                  'noise': elements the parser must ignore (<print>, <barline>, <clef>, <staves>, <staff>, <stem>,
+                  <direction> without <sound>, <sound dynamics> without tempo), 'mxl': container variant 0..3}
+  part['midi_form'] = 'full' | 'chan' (only <midi-channel>) | 'prog' (only <midi-program>) | 'nopart' (no <score-part>)
+  elem ['raw', xml] = literal XML child (malformed stream only; such cases have no model side)
 The harness serialises it to partwise MusicXML (plain .xml and the same bytes inside a .mxl zip), runs the real
 musicxml_reader.musicxml_file_to_sequence_proto on both, and compares with the Gallina model (exact rationals).
 """
@@ -39,7 +45,13 @@ RULE = ('seeded generator of abstract partwise scores per the quantifier (1-3 pa
         '{1..16,24,96,480,960} with an integral beat, meters n/2 n/4 n/8, fifths -7..7 x mode, tempo changes, transposing '
         'parts, second voice via backup, chords, rests, dots, tuplets, pickup / overfull / forward-only measures, every '
         'spelling step x alter -2..2 x octave, <harmony> from the regenerated kind table), serialised to .xml and .mxl and parsed by the real reader; plus a small '
-        'malformed stream for the error classes. non-trivial = parsed without error with at least two sounding notes; '
+        'malformed stream (one malformation at a random part / measure / position of an otherwise valid score, plus '
+        'truncated XML and four broken archives) for the error classes. Serialisation choices (<alter>0</alter>, "1.0", '
+        'missing <voice>, ignorable elements, four container layouts) and rare shapes (part without measures, empty / '
+        'attributes-only measures, zero-length notes, partial <midi-instrument>, missing <score-part>, meters n/1 and '
+        'n/16, voices 3 and 5, meter change in a later part only) are drawn independently. Every document is parsed as '
+        '.xml and .mxl under fixed file names in one directory; half of them also with a different document in between, '
+        'twice, after editing the returned proto, and through one MusicXMLDocument converted twice. non-trivial = parsed without error with at least two sounding notes; '
         'distinct by canonical abstract score')
 ASSUMPTIONS = ['XML / zip parsing (xml.etree, zipfile) is exercised, not modelled; the serialiser emits note children in schema order',
                'implementation times are binary64 and compared with the exact-rational model at relative tolerance 1e-9; '
@@ -85,9 +97,13 @@ def gen_coq():
 
 
 # ------------------------------------------------------------------ serialiser
-def _attr_xml(items):
+def _attr_xml(items, fmt=None):
+    fmt = fmt or {}
     out = ['<attributes>']
+    clef = '<staves>1</staves><clef><sign>G</sign><line>2</line></clef>' if fmt.get('noise') else ''
     for it in items:
+        if it[0] == 'transpose' and clef:
+            out.append(clef); clef = ''
         if it[0] == 'div':
             out.append('<divisions>%d</divisions>' % it[1])
         elif it[0] == 'key':
@@ -99,14 +115,24 @@ def _attr_xml(items):
             out.append('<transpose><diatonic>0</diatonic><chromatic>%d</chromatic></transpose>' % it[1])
         else:
             raise ValueError(it)
+    out.append(clef)
     out.append('</attributes>')
     return ''.join(out)
 
 
-def _elem_xml(e):
+def _alter_text(alter, fmt):
+    if alter == 0 and not fmt.get('alter0'):
+        return ''
+    return '<alter>%s</alter>' % (('%d.0' % alter) if fmt.get('alter_dec') else ('%d' % alter))
+
+
+def _elem_xml(e, fmt=None):
+    fmt = fmt or {}
     k = e[0]
+    if k == 'raw':
+        return e[1]
     if k == 'attr':
-        return _attr_xml(e[1])
+        return _attr_xml(e[1], fmt)
     if k == 'note':
         _, rest, chord, step, alter, octave, dur, voice, ty, dots, ta, tn = e
         s = '<note>'
@@ -116,13 +142,16 @@ def _elem_xml(e):
             s += '<rest/>'
         else:
             stp = STEPS[step] if 0 <= step < 7 else 'H'
-            s += '<pitch><step>%s</step>%s<octave>%d</octave></pitch>' % (
-                stp, '<alter>%d</alter>' % alter if alter else '', octave)
-        s += '<duration>%d</duration><voice>%d</voice>' % (dur, voice)
+            s += '<pitch><step>%s</step>%s<octave>%d</octave></pitch>' % (stp, _alter_text(alter, fmt), octave)
+        s += '<duration>%d</duration>' % dur
+        if not (voice == 1 and fmt.get('omit_voice1')):
+            s += '<voice>%d</voice>' % voice
         s += '<type>%s</type>' % (TYPE_NAMES[ty] if 0 <= ty < len(TYPE_NAMES) else 'semihemidemi')
         s += '<dot/>' * dots
         if ta:
             s += '<time-modification><actual-notes>%d</actual-notes><normal-notes>%d</normal-notes></time-modification>' % (ta, tn)
+        if fmt.get('noise'):
+            s += '<stem>up</stem><staff>1</staff><notations><articulations><staccato/></articulations></notations>'
         return s + '</note>'
     if k in ('backup', 'forward'):
         return '<%s><duration>%d</duration></%s>' % (k, e[1], k)
@@ -153,35 +182,84 @@ def _kind_names():
     return list(musicxml_parser.ChordSymbol.CHORD_KIND_ABBREVIATIONS)
 
 
+def midi_of(p, default=(0, 0)):
+    """(channel, program) a part's notes must carry: the <midi-instrument> values when BOTH are given for a listed
+    <score-part>, else the documented defaults (channel 0, program 0 = grand piano)."""
+    if p.get('midi') and p.get('midi_form', 'full') == 'full':
+        return tuple(p['midi'])
+    return tuple(default)
+
+
 def to_xml(score):
-    out = ['<?xml version="1.0" encoding="UTF-8" standalone="no"?>\n<score-partwise version="3.0"><part-list>']
+    fmt = score.get('fmt') or {}
+    out = ['<?xml version="1.0" encoding="UTF-8" standalone="no"?>\n<score-partwise version="3.0">']
+    if fmt.get('noise'):
+        out.append('<work><work-title>t</work-title></work><identification><creator type="composer">c</creator>'
+                   '</identification>')
+    out.append('<part-list>')
     for i, p in enumerate(score['parts']):
+        form = p.get('midi_form', 'full')
+        if form == 'nopart':
+            continue
         out.append('<score-part id="P%d"><part-name>part %d</part-name>' % (i + 1, i + 1))
         if p.get('midi'):
-            out.append('<midi-instrument id="P%d-I1"><midi-channel>%d</midi-channel><midi-program>%d</midi-program>'
-                       '</midi-instrument>' % (i + 1, p['midi'][0], p['midi'][1]))
+            out.append('<midi-instrument id="P%d-I1">' % (i + 1))
+            if form in ('full', 'chan'):
+                out.append('<midi-channel>%d</midi-channel>' % p['midi'][0])
+            if form in ('full', 'prog'):
+                out.append('<midi-program>%d</midi-program>' % p['midi'][1])
+            out.append('</midi-instrument>')
         out.append('</score-part>')
     out.append('</part-list>')
     for i, p in enumerate(score['parts']):
         out.append('<part id="P%d">' % (i + 1))
+        nm = len(p['measures'])
         for j, m in enumerate(p['measures']):
             out.append('<measure number="%d">' % (j + 1))
-            out.extend(_elem_xml(e) for e in m)
+            if fmt.get('noise'):
+                out.append('<print new-system="yes"/>' if j % 2 else
+                           '<direction><direction-type><dynamics><f/></dynamics></direction-type>'
+                           '<sound dynamics="90"/></direction>')
+            out.extend(_elem_xml(e, fmt) for e in m)
+            if fmt.get('noise') and j == nm - 1:
+                out.append('<barline location="right"><bar-style>light-heavy</bar-style></barline>')
             out.append('</measure>')
         out.append('</part>')
     out.append('</score-partwise>\n')
     return ''.join(out)
 
 
-def to_mxl_bytes(xml_text):
-    from note_seq import musicxml_parser
+MXL_MIME = 'application/vnd.recordare.musicxml+xml'      # the documented media type (MusicXML 3.0 container spec)
+
+
+def to_mxl_bytes(xml_text, variant=0):
+    """variant 0: one rootfile with media-type; 1: no media-type attribute; 2: an extra rootfile of another media type
+    listed first, score under a unicode path in a sub-directory; 3: stored (not deflated), extra unrelated member.
+    Malformed: 'two-scores', 'missing-score', 'no-container', 'garbage'."""
+    if variant == 'garbage':
+        return b'PK\x03\x04 this is not a zip archive'
+    inner = 'score.xml'
+    if variant == 2:
+        inner = 'sub dir/m\u00fasica \u4e50.xml'
+    root = '<rootfile full-path="%s" media-type="%s"/>' % (inner, MXL_MIME)
+    if variant == 1:
+        root = '<rootfile full-path="%s"/>' % inner
+    if variant == 2:
+        root = '<rootfile full-path="cover.png" media-type="image/png"/>' + root
+    if variant == 'two-scores':
+        root += '<rootfile full-path="other.xml" media-type="%s"/>' % MXL_MIME
+    if variant == 'missing-score':
+        root = '<rootfile full-path="absent.xml" media-type="%s"/>' % MXL_MIME
     buf = io.BytesIO()
-    with zipfile.ZipFile(buf, 'w', zipfile.ZIP_DEFLATED) as z:
-        z.writestr('META-INF/container.xml',
-                   '<?xml version="1.0" encoding="UTF-8"?><container><rootfiles>'
-                   '<rootfile full-path="score.xml" media-type="%s"/></rootfiles></container>'
-                   % musicxml_parser.MUSICXML_MIME_TYPE)
-        z.writestr('score.xml', xml_text)
+    with zipfile.ZipFile(buf, 'w', zipfile.ZIP_STORED if variant == 3 else zipfile.ZIP_DEFLATED) as z:
+        if variant != 'no-container':
+            z.writestr('META-INF/container.xml',
+                       '<?xml version="1.0" encoding="UTF-8"?><container><rootfiles>%s</rootfiles></container>' % root)
+        if variant in (2, 3):
+            z.writestr('cover.png', b'\x89PNG not really')
+        if variant == 'two-scores':
+            z.writestr('other.xml', xml_text)
+        z.writestr(inner, xml_text)
     return buf.getvalue()
 
 
@@ -200,31 +278,108 @@ def _canon_proto(ns):
     return ['OK', tsigs, ksigs, tempos, notes, float(ns.total_time), chords]
 
 
-def _read(path):
+_DIR = {}
+_LAST = {}
+_DECOY = {'parts': [{'midi': [9, 77], 'measures': [
+    [['tempo', '47'], ['attr', [['div', 7], ['key', -4, 2], ['time', 5, 8], ['transpose', 5]]],
+     ['note', False, False, 1, 1, 2, 7, 3, 4, 1, 3, 2], ['note', False, True, 4, -1, 6, 7, 3, 4, 1, 3, 2],
+     ['backup', 3], ['forward', 2], ['note', False, False, 6, 2, 1, 9, 3, 6, 0, 0, 0]],
+    [['attr', [['time', 7, 8]]], ['note', False, False, 0, 0, 3, 5, 1, 5, 0, 0, 0]]]}]}
+
+
+def _workdir():
+    """One scratch directory per process (created with tempfile, removed at exit); the SAME two file names are reused for
+    every case, so that anything cached per path or kept between documents shows up as a wrong result."""
+    if 'd' not in _DIR:
+        import atexit
+        _DIR['d'] = tempfile.mkdtemp(prefix='vt-c05-')
+        atexit.register(shutil.rmtree, _DIR['d'], True)
+        with open(os.path.join(_DIR['d'], 'decoy.xml'), 'w', encoding='utf-8') as f:
+            f.write(to_xml(_DECOY))
+    return _DIR['d']
+
+
+def _parse(path):
+    """-> (canonical result, proto or None)"""
     from note_seq import musicxml_reader
     try:
-        return _canon_proto(musicxml_reader.musicxml_file_to_sequence_proto(path)), None
+        ns = musicxml_reader.musicxml_file_to_sequence_proto(path)
     except Exception as e:  # noqa
         return ['EXC', type(e).__name__], None
+    return _canon_proto(ns), ns
+
+
+def _sha(path):
+    import hashlib
+    with open(path, 'rb') as f:
+        return hashlib.sha1(f.read()).hexdigest()
+
+
+_TRIP = {'n': 0}
 
 
 def impl(case):
+    """Circuit breaker: an implementation that keeps state between documents can grow without bound (every parse
+    re-emits all earlier parts); after 8 state/aliasing verdicts the remaining cases are not parsed any more."""
+    import time
+    if _TRIP['n'] >= 8:
+        return ['SKIPPED', 'not parsed: the implementation already gave 8 state-dependent results in this process']
+    t0 = time.time()
+    out = _impl(case)
+    n_expected = sum(1 for p in case['input']['parts'] for m in p['measures'] for e in m if e[0] == 'note')
+    if out[0] == 'OK' and len(out[4]) > 4 * n_expected + 50:
+        out = ['STATE', 'far-more-notes-than-the-document-has', len(out[4]), n_expected]
+    if out[0] in ('STATE', 'MXL-DIFFERS') or time.time() - t0 > 20:
+        _TRIP['n'] += 1
+    return out
+
+
+def _impl(case):
     score = case['input']
     xml = to_xml(score)
-    d = tempfile.mkdtemp(prefix='vt-c05-')
-    try:
-        px = os.path.join(d, 'score.xml')
-        with open(px, 'w', encoding='utf-8') as f:
-            f.write(xml)
-        a, _ = _read(px)
-        pm = os.path.join(d, 'score.mxl')
-        with open(pm, 'wb') as f:
-            f.write(to_mxl_bytes(xml))
-        b, _ = _read(pm)
-    finally:
-        shutil.rmtree(d, ignore_errors=True)
+    fv = case.get('file')                 # malformed-file variants
+    if fv == 'xml-truncated':
+        xml = xml[:max(40, len(xml) * 2 // 3)]
+    d = _workdir()
+    px, pm = os.path.join(d, 'score.xml'), os.path.join(d, 'score.mxl')
+    with open(px, 'w', encoding='utf-8') as f:
+        f.write(xml)
+    with open(pm, 'wb') as f:
+        f.write(to_mxl_bytes(xml, fv if fv not in (None, 'xml-truncated') else (score.get('fmt') or {}).get('mxl', 0)))
+    hx, hm = _sha(px), _sha(pm)
+    if fv not in (None, 'xml-truncated'):
+        return _parse(pm)[0]              # the archive itself is the malformed input
+    a, pa = _parse(px)
+    # (iv) the result of the PREVIOUS case, kept alive, must not have changed under this parse
+    if _LAST.get('ns') is not None and _canon_proto(_LAST['ns']) != _LAST['canon']:
+        return ['STATE', 'result-of-earlier-document-changed-by-a-later-parse']
+    deep = int(hx[:2], 16) % 2 == 0
+    if deep:
+        _parse(os.path.join(d, 'decoy.xml'))        # (ii) a different document in between
+    b, pb = _parse(pm)
     if a != b:
         return ['MXL-DIFFERS', a, b]
+    if pa is not None and _canon_proto(pa) != a:
+        return ['STATE', 'returned-sequence-changed-by-a-later-parse']
+    if deep:
+        from note_seq import musicxml_parser, musicxml_reader
+        if pa is not None:
+            # (iii) edit the returned object, then parse the same file again
+            del pa.notes[:]; del pa.key_signatures[:]; pa.tempos.add().qpm = 1.0; pa.total_time = -1.0
+            if pb is not None and _canon_proto(pb) != a:
+                return ['STATE', 'editing-one-result-changed-another']
+        a2, _ = _parse(px)                           # (i) same argument twice
+        if a2 != a:
+            return ['STATE', 'same-file-parsed-twice-differs', a, a2]
+        if a[0] == 'OK':
+            doc = musicxml_parser.MusicXMLDocument(px)
+            c1 = _canon_proto(musicxml_reader.musicxml_to_sequence_proto(doc))
+            c2 = _canon_proto(musicxml_reader.musicxml_to_sequence_proto(doc))
+            if c1 != a or c2 != a:
+                return ['STATE', 'converting-one-parsed-document-twice-differs', c1, c2]
+    if _sha(px) != hx or _sha(pm) != hm:
+        return ['STATE', 'input-file-modified']
+    _LAST['ns'], _LAST['canon'] = pb, (b if pb is not None else None)
     return a
 
 
@@ -264,9 +419,11 @@ def _flat(m):
 
 def model_input(case):
     from note_seq import musicxml_parser as mp
+    if case.get('file') or any(e[0] == 'raw' for p in case['input']['parts'] for m in p['measures'] for e in m):
+        return None                       # file-level / literal-XML malformations: oracle only
     parts = []
     for p in case['input']['parts']:
-        c, g = p['midi'] if p.get('midi') else (mp.DEFAULT_MIDI_CHANNEL, mp.DEFAULT_MIDI_PROGRAM)
+        c, g = midi_of(p, (mp.DEFAULT_MIDI_CHANNEL, mp.DEFAULT_MIDI_PROGRAM))
         parts.append([c, g, [_flat(m) for m in p['measures']]])
     return [1, parts]
 
@@ -330,6 +487,8 @@ def _tokens_of_part(p):
     out = []
     for mi, m in enumerate(p['measures']):
         for e in m:
+            if e[0] == 'raw':
+                continue
             if e[0] == 'attr':
                 for it in e[1]:
                     out.append((mi, list(it)))
@@ -446,12 +605,28 @@ def _expected_part(score, k, q0):
 
 
 _ALT = {None: '', -2: 'bb', -1: 'b', 0: '', 1: '#', 2: '##'}
+# The documented "supported kind table" (MusicXML kind value -> lead-sheet abbreviation), frozen here so that the oracle's
+# expectation does not come from the implementation; a kind the code adds later is accepted as the code spells it.
+KIND_TABLE = {
+    'major': '', 'minor': 'm', 'augmented': 'aug', 'diminished': 'dim', 'dominant': '7', 'major-seventh': 'maj7',
+    'minor-seventh': 'm7', 'diminished-seventh': 'dim7', 'augmented-seventh': 'aug7', 'half-diminished': 'm7b5',
+    'major-minor': 'm(maj7)', 'major-sixth': '6', 'minor-sixth': 'm6', 'dominant-ninth': '9', 'major-ninth': 'maj9',
+    'minor-ninth': 'm9', 'dominant-11th': '11', 'major-11th': 'maj11', 'minor-11th': 'm11', 'dominant-13th': '13',
+    'major-13th': 'maj13', 'minor-13th': 'm13', 'suspended-second': 'sus2', 'suspended-fourth': 'sus', 'pedal': 'ped',
+    'power': '5', 'none': 'N.C.', 'dominant-seventh': '7', 'augmented-ninth': 'aug9', 'minor-major': 'm(maj7)',
+    '': '', 'min': 'm', 'aug': 'aug', 'dim': 'dim', '7': '7', 'maj7': 'maj7', 'min7': 'm7', 'dim7': 'dim7',
+    'm7b5': 'm7b5', 'minMaj7': 'm(maj7)', '6': '6', 'min6': 'm6', 'maj69': '6(add9)', '9': '9', 'maj9': 'maj9',
+    'min9': 'm9', 'sus47': 'sus7'}
 
 
 def _figure(root, kind, degs, bass):
     """Lead-sheet figure of a <harmony>: root ++ kind abbreviation ++ '(degree)'* ++ '/bass' (N.C. for kind none)."""
     from note_seq import musicxml_parser
-    k = '' if kind == -1 else list(musicxml_parser.ChordSymbol.CHORD_KIND_ABBREVIATIONS.values())[kind]
+    if kind == -1:
+        k = ''
+    else:
+        name = _kind_names()[kind]
+        k = KIND_TABLE.get(name, musicxml_parser.ChordSymbol.CHORD_KIND_ABBREVIATIONS[name])
     if k == 'N.C.':
         return k
     fig = STEPS[root[0]] + _ALT[root[1]] + k
@@ -527,6 +702,7 @@ def _note_mismatch(exp_notes, got_notes):
 
 
 def oracle(case, io):
+    _TRIP['n'] = 0        # the engine judges after ALL cases were run: the breaker only guards that bulk phase
     score = case['input']
     if case.get('op') == 'malformed':
         # rejection clause: only the documented error may escape for the documented malformations
@@ -535,7 +711,11 @@ def oracle(case, io):
             return {'kind': 'malformed-score-not-rejected-as-documented', 'expect': want, 'got': io[:2]}
         return None
     if io[0] == 'MXL-DIFFERS':
-        return {'kind': 'mxl-differs-from-xml'}
+        return {'kind': 'mxl-differs-from-xml', 'container_variant': (score.get('fmt') or {}).get('mxl', 0)}
+    if io[0] == 'STATE':
+        return {'kind': 'result-depends-on-earlier-calls-or-is-aliased', 'what': io[1]}
+    if io[0] == 'SKIPPED':
+        return {'kind': 'skipped-after-repeated-state-failures', 'what': io[1]}
     if io[0] != 'OK':
         return {'kind': 'well-formed-score-rejected', 'exception': io[1] if len(io) > 1 else '?'}
     _, tsigs, ksigs, tempos, notes, total, chords = io
@@ -550,7 +730,7 @@ def oracle(case, io):
         return {'kind': 'note-count-wrong', 'expected': len(exp_notes), 'got': len(notes)}
     from note_seq import musicxml_parser as mp
     for k, p in enumerate(parts):
-        c, g = p['midi'] if p.get('midi') else (mp.DEFAULT_MIDI_CHANNEL, mp.DEFAULT_MIDI_PROGRAM)
+        c, g = midi_of(p)
         for n in notes:
             if n[0] == k and (n[2] != c or n[3] != g):
                 return {'kind': 'channel-or-program-wrong', 'part': k, 'expected': [c, g], 'got': n[2:4]}
@@ -654,6 +834,10 @@ _SHAPES = {F(8): (2, 0, 0, 0), F(4): (3, 0, 0, 0), F(2): (4, 0, 0, 0), F(1): (5,
 
 
 def _shape(dur, div, rng):
+    if rng.random() < 0.15:
+        # notated type, dots and tuplet are independent of <duration> in the format: draw them independently
+        ta, tn = rng.choice([(0, 0), (0, 0), (3, 2), (5, 4), (7, 8), (2, 3), (6, 4)])
+        return (rng.randint(0, len(TYPE_NAMES) - 1), rng.choice([0, 0, 1, 2, 3]), ta, tn)
     s = _SHAPES.get(F(dur, div))
     if s is None:
         return (rng.choice([3, 4, 5, 6, 7]), rng.choice([0, 0, 1]), 0, 0)
@@ -713,6 +897,11 @@ def _voice(total, div, voice, rng, p_rest=0.15, p_chord=0.25, forwards=False, p_
         if rng.random() < p_rest:
             els.append(_n(0, 0, 0, d, voice, ty, dots, ta, tn, rest=True)); continue
         st, al, oc = _pitch(rng)
+        if rng.random() < 0.02:
+            # zero-length note (legal): does not move the cursor; a chord on it is zero-length too
+            els.append(_n(*_pitch(rng), 0, voice, ty, dots, ta, tn))
+            if rng.random() < 0.5:
+                els.append(_n(*_pitch(rng), rng.choice([0, d]), voice, ty, dots, ta, tn, chord=True))
         els.append(_n(st, al, oc, d, voice, ty, dots, ta, tn))
         if rng.random() < p_chord:
             for _ in range(rng.randint(1, 2)):
@@ -744,7 +933,7 @@ def gen_score(rng, nparts=None, dyadic=False):
     for j in range(nmeas):
         if cur is None or rng.random() < 0.25:
             # every part's divisions must give an integral beat: choose meters compatible with all candidate divisions later
-            cur = rng.choice([(b, bt) for bt in (2, 4, 8) for b in (1, 2, 3, 4, 5, 6, 7, 9, 12)])
+            cur = rng.choice([(b, bt) for bt in (2, 4, 8, 2, 4, 8, 2, 4, 8, 1, 16) for b in (1, 2, 3, 4, 5, 6, 7, 9, 12)])
             meters.append((cur, True))
         else:
             meters.append((cur, False))
@@ -765,9 +954,24 @@ def gen_score(rng, nparts=None, dyadic=False):
         lead_sheet = (not transposing) and rng.random() < 0.35
         chrom = rng.choice([-2, -9, -3, 2, -12, 3, -14, 5, -7, 1]) if transposing else 0
         midi = [rng.randint(1, 16), rng.randint(1, 128)] if rng.random() < 0.7 else None
+        midi_form = rng.choice(['full'] * 8 + ['chan', 'prog', 'nopart'])
+        voice2 = rng.choice([2, 2, 2, 3, 5])
+        own_meter = None                      # a meter change that only this (later) part declares
         measures = []
+        if rng.random() < 0.03:
+            parts.append({'midi': midi, 'midi_form': midi_form, 'measures': []})     # a part without measures
+            continue
         for j in range(nmeas):
             (b, bt), declare = meters[j]
+            if declare:
+                own_meter = None
+            if k > 0 and j > 0 and own_meter is None and rng.random() < 0.05:
+                own_meter = rng.choice([(bb, tt) for tt in (2, 4, 8) for bb in (2, 3, 5, 6) if (4 * div) % tt == 0] or [(b, bt)])
+                declare = True
+            if own_meter is not None:
+                b, bt = own_meter
+            if k > 0 and j == 0 and rng.random() < 0.08:
+                declare = None                # a later part that does not repeat the time signature
             els = []
             items = []
             if j == 0 or rng.random() < 0.1:
@@ -776,7 +980,7 @@ def gen_score(rng, nparts=None, dyadic=False):
                 items.append(['div', div])
             if (j == 0 and rng.random() < 0.85) or (j > 0 and rng.random() < 0.2):
                 items.append(['key', rng.randint(-7, 7), rng.choice([0, 1, 1, 2, 2, 3])])
-            if declare or (j == 0):
+            if declare or (j == 0 and declare is not None):
                 items.append(['time', b, bt])
             if (j == 0 and transposing) or (j > 0 and transposing and rng.random() < 0.08):
                 if j > 0:
@@ -800,12 +1004,20 @@ def gen_score(rng, nparts=None, dyadic=False):
                 els.append(['attr', items])
             if tm is not None:
                 els.append(['tempo', tm])
+            if (4 * div) % bt:
+                # divisions changed under a meter chosen for the old value: re-declare compatible divisions
+                div = rng.choice([dv for dv in cands if (4 * dv) % bt == 0] or [bt])
+                els.append(['attr', [['div', div]]])
             full = b * 4 * div // bt
             r = rng.random()
-            if r < 0.06 and nmeas > 1:
+            if r < 0.02:
+                pass                                            # a measure with nothing but its attributes (or nothing at all)
+            elif r < 0.03:
+                els.append(['tempo', rng.choice(tpool)] if transposing or rng.random() < 0.5 else _harmony(rng, div))
+            elif r < 0.08 and nmeas > 1:
                 # forward-only measure (repaired into a whole-measure rest)
                 els.append(['forward', full])
-            elif r < 0.12:
+            elif r < 0.14:
                 # pickup / overfull measure: exercises _fix_time_signature
                 n = max(1, full + rng.choice([-1, 1]) * rng.randint(1, max(1, full // 2)))
                 els += _voice(n, div, 1, rng)
@@ -820,16 +1032,55 @@ def gen_score(rng, nparts=None, dyadic=False):
                 els += v1
                 if rng.random() < 0.3:
                     els.append(['backup', full])
-                    els += _voice(full, div, 2, rng, p_chord=0.1, forwards=True)
+                    els += _voice(full, div, voice2, rng, p_chord=0.1, forwards=True)
             measures.append(els)
-        parts.append({'midi': midi, 'measures': measures})
-    return {'parts': parts}
+        parts.append({'midi': midi, 'midi_form': midi_form, 'measures': measures})
+    fmt = {'alter0': rng.random() < 0.3, 'alter_dec': rng.random() < 0.2, 'omit_voice1': rng.random() < 0.3,
+           'noise': rng.random() < 0.4, 'mxl': rng.choice([0, 0, 1, 2, 3])}
+    return {'parts': parts, 'fmt': fmt}
+
+
+_RAW_BAD = [
+    # (literal XML child, where it may stand)
+    ('<attributes><time><beats>3</beats><beat-type>4</beat-type><beats>2</beats><beat-type>8</beat-type></time></attributes>', 'fresh'),
+    ('<attributes><time><beats>3+2</beats><beat-type>8</beat-type></time></attributes>', 'fresh'),       # TimeSignatureParseError
+    ('<attributes><key><mode>major</mode></key></attributes>', 'any'),                                    # KeyParseError
+    ('<note><unpitched><display-step>E</display-step><display-octave>4</display-octave></unpitched>'
+     '<duration>1</duration><voice>1</voice><type>quarter</type></note>', 'any'),                         # UnpitchedNoteError
+    ('<harmony><root><root-step>C</root-step></root><kind>major</kind><offset>x</offset></harmony>', 'plain'),
+    ('<harmony><root><root-step>C</root-step><root-alter>sharp</root-alter></root><kind>major</kind></harmony>', 'plain'),
+    ('<harmony><root><root-step>C</root-step></root><kind>major</kind><degree><degree-type>add</degree-type></degree></harmony>', 'plain'),
+    ('<harmony><root><root-step>C</root-step></root><kind>major</kind><degree><degree-value>9</degree-value></degree></harmony>', 'plain'),
+    ('<harmony><root><root-alter>1</root-alter></root><kind>major</kind></harmony>', 'plain'),          # missing step
+]
+_FILE_BAD = ['xml-truncated', 'garbage', 'two-scores', 'missing-score', 'no-container']
 
 
 def _malformed(rng):
-    base = gen_score(rng, nparts=1)
-    m = base['parts'][0]['measures'][0]
-    kind = rng.choice(['two-times', 'bad-step', 'bad-type', 'chord-first', 'harmony', 'harmony'])
+    """One malformation in an otherwise valid score, at a random place: any part, any measure, any position — so the
+    offending element usually comes AFTER valid ones (and after earlier parts)."""
+    base = gen_score(rng)
+    if rng.random() < 0.15:
+        return {'op': 'malformed', 'file': rng.choice(_FILE_BAD), 'input': gen_score(rng, nparts=1),
+                'expect': 'MusicXMLConversionError'}
+    ps = [k for k, p in enumerate(base['parts']) if p['measures']]
+    if not ps:
+        base = gen_score(rng, nparts=1)
+        while not base['parts'][0]['measures']:
+            base = gen_score(rng, nparts=1)
+        ps = [0]
+    k = rng.choice(ps)
+    ms = base['parts'][k]['measures']
+    j = rng.randrange(len(ms))
+    m = ms[j]
+    # never between a chord member and its head
+    slots = [i for i in range(len(m) + 1) if not (i < len(m) and m[i][0] == 'note' and m[i][2])]
+    pos = rng.choice(slots)
+    has_time = any(e[0] == 'attr' and any(it[0] == 'time' for it in e[1]) for e in m)
+    transposing = any(e[0] == 'attr' and any(it[0] == 'transpose' and it[1] for it in e[1])
+                      for mm in ms for e in mm)
+    kind = rng.choice(['two-times', 'bad-step', 'bad-type', 'harmony', 'harmony', 'raw', 'raw', 'chord-first'])
+    expect = 'MusicXMLConversionError'
     if kind == 'harmony':
         bad = rng.choice([
             ['harmony', [0, None], -2, [], None, None],                   # unknown kind
@@ -838,20 +1089,38 @@ def _malformed(rng):
             ['harmony', [0, None], 0, [[5, 1, 3]], None, None],           # invalid degree type
             ['harmony', None, 0, [], None, None],                         # no root
             ['harmony', [0, None], 0, [], [1, -3], None],                 # bass alter out of range
+            ['harmony', [0, None], 0, [[5, -3, 0]], None, None],          # degree alter out of range
         ])
-        m.append(bad)
-        return {'op': 'malformed', 'input': base, 'expect': 'MusicXMLConversionError'}
-    if kind == 'two-times':
-        m.append(['attr', [['time', 3, 4]]])
-        return {'op': 'malformed', 'input': base, 'expect': 'MusicXMLConversionError'}
-    if kind == 'bad-step':
-        m.append(_n(7, 0, 4, 1))
-        return {'op': 'malformed', 'input': base, 'expect': 'MusicXMLConversionError'}
-    if kind == 'bad-type':
-        m.append(_n(0, 0, 4, 1, ty=99))
-        return {'op': 'malformed', 'input': base, 'expect': 'MusicXMLConversionError'}
-    sc = {'parts': [{'midi': None, 'measures': [[['attr', [['div', 1], ['time', 1, 4]]], _n(0, 0, 4, 1, chord=True)]]}]}
-    return {'op': 'malformed', 'input': sc, 'expect': None}
+        m.insert(pos, bad); mark = bad
+    elif kind == 'two-times':
+        if not has_time:
+            m.insert(0, ['attr', [['time', 4, 4]]]); pos += 1
+        first = next(i for i, e in enumerate(m) if e[0] == 'attr' and any(it[0] == 'time' for it in e[1]))
+        mark = ['attr', [['time', 3, 4]]]
+        m.insert(max(pos, first + 1), mark)
+    elif kind == 'bad-step':
+        mark = _n(rng.choice([7, 8, 11]), 0, 4, 1)
+        m.insert(pos, mark)
+    elif kind == 'bad-type':
+        mark = _n(0, 0, 4, 1, ty=99)
+        m.insert(pos, mark)
+    elif kind == 'raw':
+        xml, where = rng.choice(_RAW_BAD)
+        if where == 'fresh' and has_time:
+            # a second <time> would raise MultipleTimeSignatureError first - the same documented family; keep it simple:
+            # put the element in a measure of its own
+            mark = ['raw', xml]
+            ms.insert(j + 1, [mark])
+        elif where == 'plain' and transposing:
+            mark = ['raw', _RAW_BAD[3][0]]
+            m.insert(pos, mark)
+        else:
+            mark = ['raw', xml]
+            m.insert(pos, mark)
+    else:
+        sc = {'parts': [{'midi': None, 'measures': [[['attr', [['div', 1], ['time', 1, 4]]], _n(0, 0, 4, 1, chord=True)]]}]}
+        return {'op': 'malformed', 'input': sc, 'expect': None}
+    return {'op': 'malformed', 'input': base, 'expect': expect, 'bad': mark}
 
 
 _STATS = {}
@@ -887,7 +1156,7 @@ def cases(rng, tier, n=None):
     out = _sweeps(tier) if n is None else []
     for i in range(total):
         r = rng.random()
-        if r < 0.05:
+        if r < 0.07:
             out.append(_malformed(rng))
         elif r < 0.25:
             out.append({'op': 'score-dyadic', 'input': gen_score(rng, dyadic=True), 'exact': True})
@@ -961,9 +1230,33 @@ def corpus():
     out.append({'op': 'score', 'input': one([A(['div', 2]), _n(0, 0, 4, 3), _n(0, 0, 4, 2)])})
     out.append({'op': 'score', 'input': {'parts': []}})
     out.append({'op': 'score', 'input': one([A(['div', 1], ['time', 1, 4]), ['backup', 3], _n(0, 0, 4, 1), _n(0, 0, 4, 1)])})
+    # audit (C): rare but legal shapes
+    q = lambda st, v=1, d=1: _n(st, 0, 4, d, v)
+    out.append({'op': 'score', 'exact': True, 'input': {'fmt': {'mxl': 1, 'noise': True}, 'parts': [
+        {'midi': [3, 12], 'measures': [[A(['div', 1], ['key', 2, 1], ['time', 2, 4]), q(0), q(1)]]},
+        {'midi': [4, 13], 'measures': []},                                              # a part without measures
+        {'midi': [5, 14], 'measures': [[A(['div', 1], ['key', 2, 1], ['time', 2, 4]), q(2), q(3)]]}]}})
+    out.append({'op': 'score', 'exact': True, 'input': {'fmt': {'mxl': 2, 'alter0': True, 'omit_voice1': True}, 'parts': [
+        {'midi': None, 'measures': [[A(['div', 2], ['time', 2, 4]), q(0, 1, 2), q(1, 1, 2)], [], [A(['key', -3, 2])],
+                                    [A(['div', 4], ['time', 3, 8]), q(2, 1, 2), q(3, 1, 4)],      # divisions change mid-part
+                                    [_n(0, 1, 4, 0), _n(2, 0, 4, 0, chord=True), q(4, 1, 6)]]}]}})  # zero-length chord
+    out.append({'op': 'score', 'exact': True, 'input': {'fmt': {'mxl': 3, 'alter_dec': True, 'alter0': True}, 'parts': [
+        {'midi': [2, 5], 'midi_form': 'chan', 'measures': [[A(['div', 1], ['key', 0, 1], ['time', 2, 4]), _n(0, 1, 4, 1), q(1)],
+                                                            [q(2), q(3)]]},
+        {'midi': [7, 9], 'midi_form': 'prog', 'measures': [[A(['div', 1]), q(4), q(5)],          # no <time> of its own
+                                                            [A(['key', 5, 2], ['time', 3, 4]), q(6), q(0), q(1)]]},   # key and meter change only here
+        {'midi': [8, 10], 'midi_form': 'nopart', 'measures': [[A(['div', 2], ['time', 2, 4]), q(0, 3, 4)],
+                                                               [q(1, 3, 2), q(2, 3, 2)]]}]}})       # no voice 1 at all
     # malformed
     out.append({'op': 'malformed', 'expect': 'MusicXMLConversionError',
                 'input': one([A(['div', 1], ['time', 4, 4]), A(['time', 3, 4]), _n(0, 0, 4, 1)])})
+    for fv in _FILE_BAD:
+        out.append({'op': 'malformed', 'file': fv, 'expect': 'MusicXMLConversionError',
+                    'input': one([A(['div', 1], ['time', 1, 4]), _n(0, 0, 4, 1)])})
+    for xml, _w in _RAW_BAD:
+        out.append({'op': 'malformed', 'expect': 'MusicXMLConversionError', 'bad': ['raw', xml], 'input': {'parts': [
+            {'midi': None, 'measures': [[A(['div', 1], ['time', 1, 4]), _n(0, 0, 4, 1)]]},
+            {'midi': None, 'measures': [[A(['div', 1]), _n(0, 0, 4, 1)], [['raw', xml]]]}]}})
     out.append({'op': 'malformed', 'expect': 'MusicXMLConversionError', 'input': one([A(['div', 1], ['time', 1, 4]), _n(7, 0, 4, 1)])})
     out.append({'op': 'malformed', 'expect': 'MusicXMLConversionError', 'input': one([A(['div', 1], ['time', 1, 4]), _n(0, 0, 4, 1, ty=99)])})
     out.append({'op': 'malformed', 'expect': None, 'input': one([A(['div', 1], ['time', 1, 4]), _n(0, 0, 4, 1, chord=True)])})
@@ -977,6 +1270,22 @@ def shrink(case):
     ps = sc['parts']
     def mk(new):
         c = dict(case); c['input'] = new; return c
+    if case.get('op') == 'malformed' and not case.get('file'):
+        # keep the measure that holds the malformation intact (the first <time> of a doubled one lives there too)
+        bad = case.get('bad')
+        if bad is None:
+            return
+        loc = [(k, j) for k, p in enumerate(ps) for j, m in enumerate(p['measures']) if any(e == bad for e in m)]
+        if not loc:
+            return
+        k0, j0 = loc[0]
+        for k in range(len(ps) - 1, -1, -1):
+            if k != k0 and len(ps) > 1:
+                new = copy.deepcopy(sc); del new['parts'][k]; yield mk(new)
+        for j in range(len(ps[k0]['measures']) - 1, -1, -1):
+            if j != j0:
+                new = copy.deepcopy(sc); del new['parts'][k0]['measures'][j]; yield mk(new)
+        return
     for k in range(len(ps)):
         if len(ps) > 1:
             yield mk({'parts': ps[:k] + ps[k + 1:]})
